@@ -422,6 +422,49 @@ Theorem claim_must_be_read_after_the_unlink :
   rc_bad (run rc_st (rc_step true true) rc_early_witness rc_init) = true.
 Proof. vm_compute. reflexivity. Qed.
 
+(* ------------------------------------------------------------------ 4g. rfbShutdownServer against the listener *)
+Lemma ls_bound : forall f t s, 2 <= t -> ls_step f t s = None.
+Proof. intros f t s H. unfold ls_step. do 2 (destruct t as [|t]; [lia|]). reflexivity. Qed.
+(* HEAD: the listener has linked a new client, rfbShutdownServer's loop joins its (not yet existing) thread, the listener then
+   creates the thread after the loop is over *)
+Definition ls_witness : list nat := [1; 0; 1].
+Theorem shutdown_joins_unstarted_thread :
+  let s := run ls_st (ls_step false) ls_witness ls_init in ls_badjoin s = true /\ ls_late s = true.
+Proof. vm_compute. split; reflexivity. Qed.
+(* notes/fix_C13_7.diff (listener stopped and joined first): for every schedule - the connection arrives at any moment - every
+   client the loop finds has its thread, no client thread is created after the loop, nobody stuck, everybody finishes *)
+Definition ls_reach : list ls_st := explore ls_st ls_st_beq (ls_step true) 2 5000 [ls_init] [].
+Definition ls_finishing : list nat := concat (repeat [0; 1] 8).
+Lemma ls_closed : closed ls_st ls_st_beq (ls_step true) 2 ls_reach = true.
+Proof. vm_compute. reflexivity. Qed.
+Lemma ls_init_in : In ls_init ls_reach.
+Proof. apply (mem_in _ _ internal_ls_st_dec_bl). vm_compute. reflexivity. Qed.
+Lemma ls_all_good :
+  forallb (fun s => ls_ok s && stuck_free ls_st (ls_step true) 2 ls_final s &&
+                    (let z := run ls_st (ls_step true) ls_finishing s in ls_final z && ls_ok z)) ls_reach = true.
+Proof. vm_compute. reflexivity. Qed.
+Theorem shutdown_joins_only_started_threads : forall sched,
+  let s := run ls_st (ls_step true) sched ls_init in
+  ls_badjoin s = false /\ ls_late s = false /\
+  (ls_final s = true \/ exists t, t < 2 /\ enabled ls_st (ls_step true) t s = true) /\
+  ls_final (run ls_st (ls_step true) ls_finishing s) = true.
+Proof.
+  intros sched s.
+  assert (H := all_schedules ls_st ls_st_beq internal_ls_st_dec_bl (ls_step true) 2 (ls_bound true)
+                 ls_reach _ ls_init ls_closed ls_init_in ls_all_good sched).
+  cbv beta in H. fold s in H. apply andb_true_iff in H. destruct H as [H H3]. apply andb_true_iff in H. destruct H as [H1 H2].
+  unfold ls_ok in H1. apply andb_true_iff in H1. destruct H1 as [Hb Hl].
+  split; [apply negb_true_iff; exact Hb|]. split; [apply negb_true_iff; exact Hl|]. split.
+  - unfold stuck_free in H2. apply orb_true_iff in H2. destruct H2 as [H2|H2]; auto.
+    right. apply existsb_exists in H2. destruct H2 as [t [Ht E]]. exists t. split.
+    + apply in_seq in Ht. lia.
+    + unfold enabled. exact E.
+  - cbv zeta in H3. apply andb_true_iff in H3. destruct H3 as [H3 _]. exact H3.
+Qed.
+Lemma shutdown_listener_nonvacuous :
+  let s := run ls_st (ls_step true) [1; 0; 1; 1; 0; 0] ls_init in ls_final s = true /\ ls_listed s = true /\ ls_thread s = true /\ ls_ok s = true.
+Proof. vm_compute. repeat split. Qed.
+
 (* ------------------------------------------------------------------ 4b. a request wakes the output thread *)
 Lemma rq_bound : forall b kd t s, 3 <= t -> rq_step b kd t s = None.
 Proof. intros b kd t s H. unfold rq_step. do 3 (destruct t as [|t]; [lia|]). reflexivity. Qed.
